@@ -177,6 +177,35 @@ theorem fill_int_spec (s c : Int) (hs : 0 ≤ s) (hc : 1 ≤ c) :
 theorem fill_whole (s : Int) : fillDim s (.int (-1)) = .ok [s] := by
   simp [fillDim, fillIsWhole]
 
+lemma foldl_max_le (a : Int) (l : List Int) (h : ∀ x ∈ l, x ≤ a) : l.foldl max a = a := by
+  induction l generalizing a with
+  | nil => rfl
+  | cons x xs ih =>
+    have hx : x ≤ a := h x (by simp)
+    simp only [List.foldl_cons, max_eq_left hx]
+    exact ih a fun y hy => h y (by simp [hy])
+
+/-- The largest block produced by an integer chunk size `1 ≤ c ≤ s` is exactly `c`: this links the loop's choice
+(`autoLoop_within`: product of the chosen sizes ≤ limit, each in `1..n`) to the block sizes `validate_chunks` returns.
+
+Full end-to-end statement (not proved; observed by the conformance oracle `auto-chunks-exceed-limit`):
+  `validateChunks shape ch (some M) = .ok v` with all dimensions ≥ 1, a well-formed `ch` and `∏ fixed ≤ M`
+  implies `∏ᵢ maxOf vᵢ ≤ M`.  Missing: the plumbing through `classify` / `rebuild` / `fillIn`. -/
+theorem fill_int_max_partial (s c : Int) (hc : 1 ≤ c) (hcs : c ≤ s) :
+    ∃ v, fillDim s (.int c) = .ok v ∧ maxOf v = c := by
+  obtain ⟨v, hv, _, hmem, hform⟩ := fill_int_spec s c (by omega) hc
+  refine ⟨v, hv, ?_⟩
+  have hq : 1 ≤ s / c := Int.le_ediv_of_mul_le (by omega) (by omega)
+  have hn : (s / c).toNat = ((s / c).toNat - 1) + 1 := by omega
+  rw [hform, hn, List.replicate_succ, List.cons_append]
+  simp only [maxOf]
+  apply foldl_max_le
+  intro x hx
+  have : x ∈ v := by
+    rw [hform, hn, List.replicate_succ, List.cons_append]
+    exact List.mem_cons_of_mem _ hx
+  exact (hmem x this).2
+
 /-! ### validate_chunks: whatever is returned matches the shape -/
 
 lemma assertMatch_ok (shape : List Int) (v w : Validated) (h : assertMatch shape v = .ok w) :
